@@ -879,3 +879,85 @@ def run_e3_replace(ctx, n, c06=True, c07=False, suffix=""):
             if sig not in seen:
                 seen.add(sig)
                 ctx.add_failure("oracle", "own:e3", sig + suffix, detail, witness=rec)
+
+
+# ---------------------------------------------------------------------------------------------
+# level 4: the real command line (a subprocess per build): a step whose command makes a symbolic link
+# ---------------------------------------------------------------------------------------------
+
+CLI_PLAN_1 = """#!/usr/bin/env python3
+from stepup.core.api import run
+
+run("echo data > {data}; ln -s {data} {link}", shell=True, out=["{data}", "{link}"])
+run("echo other > other.txt", shell=True, out="other.txt")
+"""
+
+CLI_PLAN_2 = """#!/usr/bin/env python3
+from stepup.core.api import run
+
+run("echo other > other.txt", shell=True, out="other.txt")
+"""
+
+
+def cli_link_pair_case(order):
+    """`stepup build` twice in a scratch project: build 1 runs a shell step that writes a data file and a symbolic
+    link to it (both declared outputs); the plan drops the step; build 2 cleans.  Returns (violations C07, record)
+    or (None, record) when the builds could not be run."""
+    import subprocess
+    import sys
+    import tempfile
+    data = "zdata.txt" if order == "target-sorts-after" else "adata.txt"
+    link = "mlink.txt"
+    from . import common
+    repo = str(common.REPO)
+    env = {k: v for k, v in os.environ.items() if not k.startswith("STEPUP_")}
+    env["PYTHONPATH"] = repo + os.pathsep + os.path.join(repo, "tests")
+    env["PATH"] = os.path.dirname(sys.executable) + os.pathsep + env.get("PATH", "")
+    env["COLUMNS"] = "100"
+    rec = {"variant": {"order": order, "link": link, "target": data}, "builds": [],
+           "how": "harness.clean_own.cli_link_pair_case: python -m stepup.core build -j 1 --no-progress, twice, in a scratch project"}
+    with tempfile.TemporaryDirectory(prefix="verif-own-cli-") as root:
+        def build():
+            try:
+                proc = subprocess.run([sys.executable, "-m", "stepup.core", "build", "-j", "1", "--no-progress"], cwd=root,
+                                      env=env, stdin=subprocess.DEVNULL, stdout=subprocess.PIPE, stderr=subprocess.STDOUT,
+                                      text=True, timeout=300, check=False)
+            except subprocess.TimeoutExpired:
+                rec["builds"].append({"rc": "timeout"})
+                return False
+            rec["builds"].append({"rc": proc.returncode, "removed": [ln.split("│")[-1].strip() for ln in proc.stdout.splitlines()
+                                                                    if "REMOVE" in ln]})
+            return proc.returncode == 0
+        plan = os.path.join(root, "plan.py")
+        Path(plan).write_text(CLI_PLAN_1.format(data=data, link=link))
+        os.chmod(plan, 0o755)
+        if not build() or not os.path.islink(os.path.join(root, link)):
+            return None, rec
+        Path(plan).write_text(CLI_PLAN_2)
+        before = lsnap(root)
+        if not build():
+            return None, rec
+        after = lsnap(root)
+    rec["tree_before_last_build"], rec["tree_after"] = before, after
+    out = []
+    if link in after:
+        first = "target-removed-first" if data not in after and data > link else "target-kept" if data in after else "target-removed-later"
+        out.append((f"own:c07:orphan-kept:symlink-output:{first}",
+                    f"{link} -> {data}: an unmodified output the step made as a symbolic link is still there after the "
+                    f"successful build that dropped the step (the target is {'gone' if data not in after else 'there'})"))
+    if data in after:
+        out.append(("own:c07:cli:orphan-kept:regular", f"{data} is still there"))
+    return out, rec
+
+
+def run_cli_link_pairs(ctx, orders, suffix=""):
+    for order in orders:
+        viol, rec = cli_link_pair_case(order)
+        if viol is None:
+            ctx.notes.append(f"cli link-pair case {order}: builds could not be run: {rec['builds']}")
+            ctx.count("own_cli_not_run", 1)
+            continue
+        ctx.case(("own-cli", order), True)
+        ctx.count("own_cli_link_pair_cases", 1)
+        for sig, detail in viol:
+            ctx.add_failure("oracle", "own:cli", sig + suffix, detail, witness=rec)
